@@ -93,6 +93,10 @@ Universe_C02 ==
               <<"pinf", "con", 5>>, <<"nan", "region", 0>>, <<"huge", "obj", 4>>},
      lin \in {"none", "two"}, nl \in {"none", "nlc_two", "dict_ineq", "vector"},
      opt \in {"default", "fev_3npt"}, cb \in {NoCb, <<"stop", 4>>}}
+  \cup  \* an objective that modifies the array it receives (each user function must get its own copy)
+  {D(n, bp, "inside", sc, "inplace", NoFault, lin, nl, "Bounds", opt, NoCb) :
+     n \in {2, 3}, bp \in UNION {FixSets(m) : m \in {2, 3}}, sc \in BOOLEAN, lin \in {"none", "mixed"},
+     nl \in {"nlc_ub", "nlc_two", "dict_ineq", "vector"}, opt \in {"default", "fev_3npt"}}
   \cup  \* every variable fixed: the single evaluation made while assembling the result
   {D(n, Const(n, "fixed"), "inside", sc, obj, NoFault, lin, nl, bf, "default", NoCb) :
      n \in {1, 2, 3}, sc \in BOOLEAN, obj \in {"quad", "none"}, lin \in {"none", "ub", "two", "eq"},
@@ -125,6 +129,11 @@ Universe_C06 ==
      obj \in {"quad", "none"}, lin \in {"none", "two"},
      nl \in {"nlc_ub", "nlc_two", "nlc_eq", "dict_ineq", "dict_eq", "vector", "two_objs", "two_dicts"},
      opt \in {"default", "fev_3npt", "target", "disp"}, cb \in {NoCb, <<"pos", 0>>}}
+
+Universe_C06b ==
+  {D(n, bp, "inside", sc, "inplace", NoFault, lin, nl, "Bounds", opt, NoCb) :
+     n \in {2, 3}, bp \in UNION {FixSets(m) : m \in {2, 3}}, sc \in BOOLEAN, lin \in {"none", "two"},
+     nl \in {"nlc_ub", "nlc_eq", "dict_ineq", "vector", "two_dicts"}, opt \in {"default", "fev_3npt"}}
 
 (* ---- C07 / C09: every way of ending, in every phase -------------------- *)
 Stops(K) == {<<"stop", k>> : k \in K}
@@ -173,6 +182,11 @@ Universe_C08 ==
      n \in {1, 2}, bpk \in {"free", "wide"}, x0 \in {"inside"}, sc \in BOOLEAN, obj \in {"quad", "none"},
      flt \in Faults, lin \in {"none", "two"}, nl \in {"none", "nlc_two", "dict_eq", "vector"},
      opt \in {"default", "target_huge"}, cb \in {NoCb, <<"stop", 1>>, <<"kw", 0>>}}
+  \cup  \* every admissible number of interpolation points, three and four variables
+  {D(n, Const(n, bpk), "inside", sc, "quad", flt, "none", nl, "Bounds", opt, NoCb) :
+     n \in {3, 4}, bpk \in {"free", "wide"}, sc \in BOOLEAN,
+     flt \in {NoFault, <<"nan", "obj", 2>>, <<"pinf", "obj", 5>>}, nl \in {"none", "nlc_ub"},
+     opt \in {"npt_max", "npt_3np1", "npt_3np2", "npt_min", "npt_2np2"}}
   \cup
   {D(n, bp, "inside", sc, obj, flt, lin, nl, "Bounds", "default", cb) :
      n \in {1, 2}, bp \in UNION {{Const(m, "fixed"), [i \in 1..m |-> IF i = 1 THEN "bad" ELSE "wide"],
@@ -196,8 +210,8 @@ Universe_Runs ==
      n \in {1, 2, 3}, bpk \in {"free", "wide", "narrow"}, x0 \in {"inside", "onlower"}, sc \in BOOLEAN,
      obj \in {"quad", "rosen", "nonsmooth"}, flt \in {NoFault, <<"nan", "obj", 1>>, <<"nan", "region", 0>>},
      lin \in {"none", "ub", "eq"}, nl \in {"none", "nlc_ub", "nlc_eq", "vector"},
-     opt \in {"default", "filter1", "filter2", "npt_min", "npt_max"}}
-  \cup SocRich({"default", "filter2", "npt_max"}, {NoCb})
+     opt \in {"default", "filter1", "filter2", "npt_min", "npt_max", "hist1", "hist2"}}
+  \cup SocRich({"default", "filter2", "npt_max", "hist2"}, {NoCb})
   \cup  \* starts close to (not on) a bound: the base point is moved, the start is not a sample
   {D(n, Const(n, bpk), x0, sc, obj, NoFault, "none", nl, "Bounds", opt, NoCb) :
      n \in {1, 2, 3}, bpk \in {"wide", "lower", "upper"}, x0 \in {"nearlower", "nearupper"}, sc \in BOOLEAN,
@@ -228,7 +242,7 @@ Universe_C10 ==
   {D(n, bp, x0, sc, obj, NoFault, lin, nl, bf, opt, NoCb) :
      n \in {2, 3}, bp \in UNION {FixSets(m) : m \in {2, 3}} \cup {<<"lower", "upper">>, <<"wide", "fixed", "ugly">>},
      x0 \in {"inside", "onlower"}, sc \in BOOLEAN, obj \in {"quad", "rosen", "none"},
-     lin \in {"none", "ub", "two", "eq"}, nl \in {"none", "nlc_ub", "nlc_two", "dict_ineq", "dict_eq", "vector", "two_dicts"},
+     lin \in {"none", "ub", "two", "eq", "mixed"}, nl \in {"none", "nlc_ub", "nlc_two", "dict_ineq", "dict_eq", "vector", "two_dicts"},
      bf \in {"Bounds", "array"}, opt \in {"default40", "fev_3npt"}}
 
 Universe(id) ==
@@ -237,7 +251,7 @@ Universe(id) ==
     [] id = "C01" -> Universe_C01
     [] id = "C02" -> Universe_C02
     [] id = "C05" -> Universe_C05
-    [] id = "C06" -> Universe_C06
+    [] id = "C06" -> Universe_C06 \cup Universe_C06b
     [] id = "C07" -> Universe_C07
     [] id = "C08" -> Universe_C08
     [] id = "C09" -> Universe_C09
